@@ -71,7 +71,10 @@ def _ensure():
     import breezy
     import breezy.bzr  # noqa: F401
     from breezy import lockdir, trace, ui
-    d = tempfile.mkdtemp(prefix="verif-c23-", dir=os.environ.get("VERIF_SCRATCH") or None)
+    sd = os.environ.get("VERIF_SCRATCH")
+    d = tempfile.mkdtemp(prefix="verif-c23-", dir=sd if sd and os.path.isdir(sd) else None)
+    if not os.path.isdir(os.environ.get("BRZ_HOME", "")):
+        os.environ["BRZ_HOME"] = d       # replay / shrink outside setup(): the scratch home is gone
     _state.update(dir=d, own=True, n=0, lock_timeout=lockdir._DEFAULT_TIMEOUT_SECONDS)
     lockdir._DEFAULT_TIMEOUT_SECONDS = 0
     ui.ui_factory = ui.SilentUIFactory()
